@@ -177,6 +177,18 @@ add("C12",
     "scorers and counted.",
     "DESIGN.md section 4, C12")
 
+add("C10",
+    "Hypothesis rule-based state machine (stateful / model-based PBT) with a differential oracle against history-free execution and invariants on hyper-parameters and caller data",
+    "Histories of construct / clone / set_params (incl. nested parameters of a shared cost object) / fit / update / predict / "
+    "transform / transform_scores / scorer fit / evaluate over all seven detectors, ten scorer configurations, shared cost "
+    "instances and a pool of datasets with different n and p; after every output-producing call the same call on a freshly "
+    "constructed object fitted on the model's training data (update => new.combine_first(old)) must give the same output or "
+    "the same exception class; after every step get_params(deep) must equal the specification and the datasets their "
+    "pristine copies. The shrunk op list is the replay file. Bounded exploration (<= 45 steps, 4 detector slots).",
+    "Trusted: sktime clone/set_params/reset semantics (mirrored by the model); shared instances are shared between detectors "
+    "only; objects whose re-fit or update failed are retired (their state is not defined by the documentation).",
+    "DESIGN.md section 4, C10")
+
 NOT_BUILT_REASON = "check not built yet in this round (designed in DESIGN.md section 4; no claim is made)"
 
 
